@@ -368,7 +368,9 @@ Proof.
     + (* PRetryDE CGetById *)
       destruct (String.eqb id (t_id t)) eqn:I; try discriminate. apply String.eqb_eq in I; subst id.
       destruct (cret_eqb r _) eqn:R; try discriminate. apply cret_eqb_res in R.
-      destruct (call_get_by_id f (t_id t) (sy_h s)) eqn:X; try (inv H; eapply SRetryFetchFail; eauto; fail).
+      destruct (call_get_by_id f (t_id t) (sy_h s)) as [| t0 | l0 | e0] eqn:X;
+        try (inv H; eapply SRetryFetchFail; eauto; fail);
+        try (destruct e0; inv H; first [eapply SRetryFetchFail; eauto; fail | ctl P]; fail).
       unfold call_get_by_id in X. destruct f; try discriminate. cbn [step snd] in X.
       destruct (lookup (t_id t) (hs_repo (sy_h s))) eqn:L; inv X.
       destruct (t_state t0) eqn:S; try (inv H; ctl P; fail).
